@@ -838,7 +838,35 @@ class Terms:
                 if s_[0] == "array":
                     return ("call", "vec!", s_[1])
             return ("call", "vec!", (a,))
+        w = self._thin_wrapper(t.get("rkey"), args)
+        if w is not None:
+            return w
         return ("call", nm, args, ("meta", t.get("resolved"), t.get("rkey")))
+
+    def _thin_wrapper(self, rkey, args):
+        """a local accessor that only forwards to one storage read, or only builds a key tuple
+        (`fn find_request(storage, user, id) { requests().may_load(storage, key(id, user)) }`,
+        `fn key(id, user) -> (u64, String)`): its call is the read / the tuple itself."""
+        prog = self.b.prog
+        cb = prog.bodies.get(rkey) if rkey else None
+        if cb is None or cb.kind != "fn" or cb.key == self.b.key or len(cb.blocks) > 16 or self.depth > 3:
+            return None
+        thin = prog.__dict__.setdefault("_thin", {})
+        if rkey not in thin:
+            ok = all(blk["cleanup"] or blk["term"]["k"] in ("call", "return", "goto", "drop", "assert") for blk in cb.blocks)
+            thin[rkey] = ok
+        if not thin[rkey]:
+            return None
+        tt = Terms(cb, params={i + 1: a for i, a in enumerate(args)}, depth=self.depth + 1)
+        rt = tt.return_term()
+        head = rt
+        while head[0] in ("payload", "trybranch"):
+            head = head[1]
+        if head[0] == "tuple":
+            return rt
+        if head[0] == "call" and head[1].startswith("cw_storage_plus::") and head[1].split("::")[-1] in ("load", "may_load", "has"):
+            return rt
+        return None
 
     def return_term(self):
         """phi of the values of _0 at every return."""
